@@ -160,11 +160,15 @@ impl<T> ParallelVecWriter<T> {
 
     fn reserve_space(&self, len: usize) -> usize {
         let start = self.end_len.fetch_add(len, Ordering::AcqRel);
+        #[cfg(egglog_verif)]
+        crate::verif::point(19);
         let end = start + len;
         let reader = self.data.read();
         let current_len = reader.len();
         let current_cap = reader.capacity();
         mem::drop(reader);
+        #[cfg(egglog_verif)]
+        crate::verif::point(20);
         if current_cap < end {
             let mut writer = self.data.lock();
             if writer.capacity() < end {
@@ -178,6 +182,8 @@ impl<T> ParallelVecWriter<T> {
     unsafe fn write_contents_at(&self, items: impl ExactSizeIterator<Item = T>, start: usize) {
         let mut written = 0;
         let expected = items.len();
+        #[cfg(egglog_verif)]
+        crate::verif::point(21);
         let reader = self.data.read();
         debug_assert!(reader.capacity() >= start + items.len());
         unsafe {
